@@ -168,6 +168,47 @@ theorem reject_noop_full_false : ¬ RejectNoop := by
   rw [h1.1, h3] at h2
   exact absurd h2 (by decide)
 
+/-- **reject_no_fork_noop** (repo commit a2015e1).  A block that is not on the tip and whose fork
+point with the best chain is not found — an ancestor's index node lost its parent pointer
+(`index.DelNode` after a failed execution on the download path) — is refused with an error and
+leaves best chain, state and indexes unchanged, in any node state.  (`findFork` reads index,
+deleted nodes and best chain only; the hypothesis is stated for the index with the block's own
+node added, as `maybeAcceptBlock` does before `connectBestChain`.) -/
+theorem reject_no_fork_noop (P : Params) (s : State) (b : Blk) (src : Src)
+    (tip : Blk) (rest : List Blk) (hbest : s.best = tip :: rest) (hpar : b.parent ≠ tip.id)
+    (hnf : findFork (addIndex s b src) b = none) :
+    SameChain s (processBlock P s b src).1 ∧
+    ((processBlock P s b src).2 = .orphan ∨ ∃ e, (processBlock P s b src).2 = .err e) :=
+  processBlock_no_fork s b src tip rest hbest hpar hnf
+
+namespace Witness
+/-- trunk 1..12, RESTART, main 13,14; X = 20 (wrong state root, download path, side branch of 12);
+Y = 21 on X claims work 100: the reorganisation fails on X, whose node is deleted. -/
+def evsD : List Ev :=
+  (List.range 12).map (fun i => Ev.deliver (mk (i+1) i (i+1) 1) .peer) ++
+  [.restart, .deliver (mk 13 12 13 1) .peer, .deliver (mk 14 13 14 1) .peer,
+   .deliver (mk 20 12 13 1 false) .download, .deliver (mk 21 20 14 100) .peer]
+def sD : State := run P0 (init 0 12 600 200 false g0) evsD
+/-- Z on Y claims still more work. -/
+def z : Blk := mk 22 21 15 1000
+/-- the state in which `maybeAcceptBlock` calls `connectBestChain` for Z. -/
+def sZ : State :=
+  match storeBlock sD z with
+  | some s1 => addIndex s1 z .peer
+  | none => sD
+end Witness
+
+open Witness in
+/-- Non-vacuity of `reject_no_fork_noop`, and **regression witness** for the behaviour before
+a2015e1: in the state reached by the deliveries above no fork point is found for Z; the repaired
+`connectBestChain` refuses Z and the chain 0..12 stays; the OLD `connectBestChain` hands the nil
+fork to getReorganizeNodes: every block down to genesis is disconnected, then the panic
+(corpus/C27/05-delnode-descendants-chain-wiped.ops replays both on the real code). -/
+theorem no_fork_regression_old_connectBestChain :
+    sD.best.length = 13 ∧ findFork (addIndex sD z .peer) z = none ∧
+    (processBlock P0 sD z .peer).2 = .err .parentNoExist ∧ (processBlock P0 sD z .peer).1.best.length = 13 ∧
+    (connectBestChainOld P0 sZ z).1.best = [] ∧ (connectBestChainOld P0 sZ z).2 = .err .panic := by decide
+
 /-- **no_poisoning** — the statement at the strength of the property text: after a tampered
 body `t` under the header of a valid block `b` (same `id`; `b` passes every check, `t` does not)
 was delivered, delivery of `b` is never answered `ErrBlockExist` — provided the hash was unknown
